@@ -34,6 +34,7 @@ type workerInfo struct {
 	RelevantContexts  []string       `json:"relevant_contexts"`
 	DanglingTemplates []string       `json:"dangling_templates"`
 	RefKinds          map[string]any `json:"referred_type_kinds"`
+	Cred              map[string]any `json:"requirement_credential_family"`
 	Menus             map[string]int `json:"menus"`
 }
 
